@@ -405,7 +405,7 @@ func (info rawHelloInfo) looksLikeFirefox() bool {
 		// newer Firefox (55 Nightly?) may have additional curves at end of list
 		allowedCurves := []tls.CurveID{256, 257}
 		for i := range allowedCurves {
-			if info.Curves[len(requiredCurves)+i] != allowedCurves[i] {
+			if len(requiredCurves)+i >= len(info.Curves) || info.Curves[len(requiredCurves)+i] != allowedCurves[i] {
 				return false
 			}
 		}
